@@ -68,4 +68,9 @@ VARIANTS = [
         {"file": "Hierarchization.py", "old": "        matrix = np.empty((numPoints[d], numPoints[d]))\n        for i in range(numPoints[d]):\n            for j in range(numPoints[d]):\n                matrix[i, j] = self.grid.get_basis(d, j)(self.grid.get_coordinates_dim(d)[i])\n",
          "new": "        if (d, numPoints[d]) not in self.matrix_memo:\n            matrix = np.empty((numPoints[d], numPoints[d]))\n            for i in range(numPoints[d]):\n                for j in range(numPoints[d]):\n                    matrix[i, j] = self.grid.get_basis(d, j)(self.grid.get_coordinates_dim(d)[i])\n            self.matrix_memo[(d, numPoints[d])] = matrix\n        matrix = self.matrix_memo[(d, numPoints[d])]\n"},
         {"file": "Hierarchization.py", "old": "        self.grid = grid\n        self.dim = len(numPoints)\n", "new": "        self.grid = grid\n        self.matrix_memo = {}\n        self.dim = len(numPoints)\n"}]),
+    # round-3 rules
+    V("C10-n60-value-buffer-zeros", "neutral", "        grid_values = np.empty((output_dim, np.prod(numPoints)))\n",
+      "        grid_values = np.zeros((output_dim, int(np.prod(numPoints))), dtype=np.float64)\n", file="Integrator.py"),
+    V("C10-b60-value-buffer-integer", "break", "        grid_values = np.empty((output_dim, np.prod(numPoints)))\n",
+      "        grid_values = np.empty((output_dim, np.prod(numPoints)), dtype=int)\n", "C10.D11", file="Integrator.py"),
 ]
